@@ -10,6 +10,7 @@ Inductive op :=
 | OModeDot (be : bool) (mode : nat) (tr : bool)                                     (* operands [T; M] *)
 | OModeDotZ (be : bool) (mode : Z) (tr : bool)                                     (* [T; M]; mode as a Python int *)
 | OMulti (be : bool) (modes : option (list nat)) (skip : option nat) (tr : bool)    (* [T; M1; ...] *)
+| OMultiZ (be : bool) (modes : list Z) (skip : option nat) (tr : bool)            (* [T; M1; ...]; modes as Python ints *)
 | OKhatri (be : bool) (hasw hasmask : bool) (skip : option nat)                     (* Ms ++ [w] ++ [mask] *)
 | OKron (be : bool) (skip : option nat) (reverse : bool)                            (* Ms *)
 | OInner (be : bool) (n_modes : option nat)                                         (* [A; B] *)
@@ -35,6 +36,8 @@ Definition run (o : op) (ts : list (tensor F)) : res (tensor F) :=
       match ts with [T; M] => (if be then mode_dot_e_z else mode_dot_z) Op T M z tr | _ => Err end
   | OMulti be modes skip tr =>
       match ts with T :: Ms => (if be then multi_mode_dot_e else multi_mode_dot) Op T Ms modes skip tr | _ => Err end
+  | OMultiZ be modes skip tr =>
+      match ts with T :: Ms => (if be then multi_mode_dot_e_z else multi_mode_dot_z) Op T Ms modes skip tr | _ => Err end
   | OKhatri be hasw hasmask skip =>
       let '(l1, mask) := split_last hasmask ts in
       let '(Ms, w) := split_last hasw l1 in
